@@ -21,3 +21,5 @@ PROPS = {
 
 HOOK_COMMITS = []
 NOT_APPLICABLE = {}
+PROPS["C17"] = {"contracts": ["c17_min_iri"], "level": "other", "explanation": "wip"}
+PROPS["C11"] = {"contracts": ["c11_shacl"], "level": "other", "explanation": "wip"}
